@@ -888,17 +888,9 @@ class Engine:
             if h.kind in ("PPoly", "HPoly"):
                 i = rows_proj_equal(A.reshape(-1, d), F.reshape(-1, d))
             elif h.kind == "HSeg":
-                A2, F2 = A.reshape(-1, 2, d), F.reshape(-1, 2, d)
-                direct = (rows_proj_equal(A2[:, 0], F2[:, 0]), rows_proj_equal(A2[:, 1], F2[:, 1]))
-                i = -1
-                if direct != (-1, -1):
-                    # unordered pair, unit by unit
-                    for u in range(A2.shape[0]):
-                        same = rows_proj_equal(A2[u], F2[u]) < 0
-                        swap = rows_proj_equal(A2[u], F2[u][::-1]) < 0
-                        if not (same or swap):
-                            i = u
-                            break
+                # row by row, in order: a *consistent* change of the order in which the two ideal
+                # endpoints are stored changes stored and recomputed data alike
+                i = rows_proj_equal(A.reshape(-1, d), F.reshape(-1, d))
             else:
                 i = rows_proj_equal(A[..., 0, :].reshape(-1, d), F[..., 0, :].reshape(-1, d))
                 if i < 0:
